@@ -38,6 +38,7 @@ int main(int argc, char **argv)
   if (mc_opt.param[1]) rounds = (int)mc_opt.param[1];
   if (nth > MAXTH) nth = MAXTH;
   snprintf(mc_st->cur_id, sizeof mc_st->cur_id, "b0t0:0");
+  B_REQUIRE_PERMISSIONS();      /* process-wide, before any thread exists: every body's files and directories satisfy it except P7's odd instances */
   for (int i = 0; i < nth; i++) for (int b = 0; b < NBODIES; b++) {
     TT[i][b].body = b;
     snprintf(TT[i][b].dir, sizeof TT[i][b].dir, "%s/T%d-%d", mc_work, i, b);
